@@ -168,6 +168,24 @@ theorem decodeIpAddress_np (tail : Bytes) (h : Header) (hl : h.length ≤ tail.l
 theorem slice_np {i : Bytes} {a b : Nat} (h1 : a ≤ b) (h2 : b ≤ i.length) : NP (slice i a b) := by
   unfold slice; rw [if_pos ⟨h1, h2⟩]; exact np_ok _
 
+theorem decodeRealBinary_np (i : Bytes) (f : Nat) : NP (decodeRealBinary i f) := by
+  unfold decodeRealBinary
+  have hlay : NP (realExpLayout i f) := by
+    unfold realExpLayout
+    split
+    · split
+      · rfl
+      · apply np_bind (idx_np (by omega)); intro _ _; rfl
+    · rfl
+  apply np_bind hlay; intro lay _
+  simp only
+  split
+  · rfl
+  · rename_i hc
+    apply np_bind (slice_np (by omega) (by omega)); intro _ _
+    apply np_bind (sliceFrom_np (by omega)); intro _ _
+    split <;> rfl
+
 theorem decodeReal_np (tail : Bytes) (h : Header) (hl : h.length ≤ tail.length) :
     NP (decodeReal tail h) := by
   unfold decodeReal
@@ -180,14 +198,7 @@ theorem decodeReal_np (tail : Bytes) (h : Header) (hl : h.length ≤ tail.length
     apply np_bind (idx_np (by omega)); intro fb _
     simp only
     split
-    · split
-      · rfl
-      · rename_i hge
-        apply np_bind (slice_np (by omega) (by omega)); intro _ _
-        apply np_bind (sliceFrom_np (by omega)); intro _ _
-        split
-        · rfl
-        · split <;> rfl
+    · exact decodeRealBinary_np _ _
     · split
       · apply np_bind (sliceFrom_np (by omega)); intro _ _
         split
